@@ -1137,9 +1137,11 @@ def processDataMessageTail (K : Crypto) (dm : DataMsg) (tlvs : List Tlv) (extraK
   let newPriv ← if c.keys.rotatesOur dm.recipientKeyID then randRead 40 else pure none
   let (k1, e) := c.keys.rotateOurKeys K dm.recipientKeyID newPriv
   modc fun c => { c with keys := k1 }
-  if let some e := e then throw e
-  modc fun c => { c with keys := c.keys.rotateTheirKey dm.senderKeyID dm.y }
+  -- repaired code: a rotation that cannot draw its new key changes nothing (and leaves their key alone);
+  -- the TLVs of the message - authentic and accepted - are acted upon before the failure is reported
+  if e.isNone then modc fun c => { c with keys := c.keys.rotateTheirKey dm.senderKeyID dm.y }
   let replies ← processTLVs K tlvs extraKey
+  if let some e := e then throw e
   if replies.length > 0 then do
     let (reply, _) ← genDataMsgWithFlag K [] (decideFlagFrom replies) replies
     let ts ← wrapMessageHeader msgTypeData reply.serialize
